@@ -35,6 +35,9 @@ def gen(tier, rng, harness, driver):
     for _ in range(n):
         ts, gs = core2gen.gen_core2(rng)
         lines += ["core2.print %s %s" % (ts, gs), "!core2.rt %s %s" % (ts, gs)]
+        from . import core3gen
+        a = " ".join(core3gen.gen_func(rng))
+        lines += ["core3.print " + a, "!core3.rt " + a]
     # construction scenarios (constructors and builder methods only): values with special type state at several use sites; printed text must be
     # accepted and reproduced byte for byte by parse + print, and every registered value must report the stated type
     for name in C.run_lines([harness, "run"], ["api.list"])[0].split(","):
@@ -56,7 +59,7 @@ def gen(tier, rng, harness, driver):
     for l in pC06.gen("quick" if tier == "quick" else "thorough", rng, harness, driver)[: (600 if tier == "quick" else 40000)]:
         if l.startswith(("!typ.ok", "typ.ir")):
             lines.append(l)
-    for l in pC08.gen("quick", rng, harness)[: (600 if tier == "quick" else 6000)]:
+    for l in pC08.gen("quick", rng, harness, driver)[: (600 if tier == "quick" else 6000)]:
         if l.startswith(("!num.check", "num.api", "num.modapi")):
             lines.append(l)
     return lines
